@@ -30,6 +30,9 @@ pub enum Error {
     #[error("cannot coerce {0:?} into datum")]
     CannotCoerceIntoDatum(Expression),
 
+    #[error("cannot coerce {0:?} into script")]
+    CannotCoerceIntoScript(Expression),
+
     #[error("compiler op failed: {0}")]
     CompilerOpFailed(Box<crate::compile::Error>),
 }
@@ -252,6 +255,7 @@ impl Concatenable for Expression {
 pub trait Coerceable {
     fn into_assets(self) -> Result<Expression, Error>;
     fn into_datum(self) -> Result<Expression, Error>;
+    fn into_script(self) -> Result<Expression, Error>;
 }
 
 impl Coerceable for Expression {
@@ -289,6 +293,19 @@ impl Coerceable for Expression {
             Expression::Address(x) => Ok(Expression::Bytes(x)),
             Expression::Hash(x) => Ok(Expression::Bytes(x)),
             _ => Err(Error::CannotCoerceIntoDatum(self)),
+        }
+    }
+
+    fn into_script(self) -> Result<Expression, Error> {
+        match self {
+            Expression::None => Ok(Expression::None),
+            Expression::UtxoSet(x) => Ok(x
+                .into_iter()
+                .next()
+                .and_then(|x| x.script)
+                .unwrap_or(Expression::None)),
+            Expression::Bytes(x) => Ok(Expression::Bytes(x)),
+            _ => Err(Error::CannotCoerceIntoScript(self)),
         }
     }
 }
@@ -614,7 +631,7 @@ impl Composite for Coerce {
             Self::NoOp(x) => Ok(Self::NoOp(x)),
             Self::IntoAssets(x) => Ok(Self::NoOp(x.into_assets()?)),
             Self::IntoDatum(x) => Ok(Self::NoOp(x.into_datum()?)),
-            Self::IntoScript(x) => todo!(),
+            Self::IntoScript(x) => Ok(Self::NoOp(x.into_script()?)),
         }
     }
 }
